@@ -22,6 +22,8 @@ mod logging;
 mod networking;
 mod proto;
 mod server;
+#[cfg(feature = "verif_hooks")]
+pub mod verif;
 
 use bevy::{prelude::*, reflect::*};
 use std::{marker::PhantomData, net::IpAddr};
